@@ -379,7 +379,7 @@ func mxCellFromIndex(i int) (mxCfg, bool) {
 	i /= 4
 	c.cert = mxCerts[i%3]
 	i /= 3
-	c.skipVerify = i%8 == 7
+	c.skipVerify = i%2 == 1
 	if c.proxy == "" && c.cred != "" {
 		return c, false
 	}
